@@ -1,5 +1,5 @@
 """C02 — per-worker concurrency never exceeds max_concurrent_connections."""
-from props.srvlib import COMMON_META, gen_scripts, make_stream, c02_pred, saturates
+from props.srvlib import COMMON_META, gen_scripts, make_stream, bfs_stream, c02_pred, saturates
 
 META = dict(COMMON_META)
 META.update({
@@ -26,6 +26,6 @@ META.update({
 def streams(ctx):
     n = 2500 if ctx.tier == "quick" else 60000
     cases = gen_scripts(ctx, n, ["e", "ye", "ye", "cye", "ciye", "dye", "cidye", "dy"], ls=(1, 2, 3, 4))
-    return [make_stream("srv", cases, c02_pred,
+    return [bfs_stream(ctx, c02_pred, "dc", saturates), make_stream("srv", cases, c02_pred,
                         "%d generated fault-free scripts + corpus; every snapshot compared, in-progress <= L checked on the implementation" % n,
                         saturates)]
